@@ -3,6 +3,7 @@
 Shared by C05 (DictStore), C06 (LruLaws), C07 (BlobLedger + tree scan), C19 (read-only).  The
 public StorageBackend methods are driven directly with mementos built from real
 FunctionReferences of a small function alphabet.  DESIGN.md 3.2."""
+import sys
 import datetime
 import hashlib
 import os
@@ -358,6 +359,51 @@ def run_ops(W, ops, check, emit_log, model=None, ledger=None, lru=None, faults=N
                         if viol:
                             break
                         continue
+                elif spec.get("alloc_fail") and spec["t"] == "df" and W.knobs.get("cache_kib") and not W.read_only:
+                    # a failing allocation: the defensive copy the memory cache makes of a DataFrame raises MemoryError (only that
+                    # copy: the patched method looks at its caller).  The write is un-acknowledged - the key may answer the old
+                    # or the new value afterwards - and the cache's accounts must stay honest.
+                    import pandas as pd
+                    real_copy = pd.DataFrame.copy
+                    hit = []
+
+                    def failing_copy(self_, *a_, **k_):
+                        if sys._getframe(1).f_code.co_name == "put" and not hit:
+                            hit.append(1)
+                            raise MemoryError("injected allocation failure")
+                        return real_copy(self_, *a_, **k_)
+                    pd.DataFrame.copy = failing_copy
+                    try:
+                        be.memoize(ko, mem, val)
+                        failed = False
+                    except MemoryError:
+                        failed = True
+                    finally:
+                        pd.DataFrame.copy = real_copy
+                    if failed:
+                        bump("allocation_failures_injected")
+                        model.unc.add((fn, x))
+                        if (fn, x) in model.d:
+                            model.d[(fn, x)] = dict(model.d[(fn, x)], epoch=-1)
+                        else:
+                            model.d[(fn, x)] = {"val": clone(val), "meta": {}, "ko": ko, "epoch": -1, "old": []}
+                        if ledger is not None:
+                            ledger.on_forget([(fn, x)])
+                        if lru is not None:
+                            # whether the key is resident, with which value, and whether the weak-reference table serves it, is
+                            # open from here to its next successful write: no recency law is applied to it
+                            key_ = lru.ckey(W, fn, x)
+                            lru.certain.pop(key_, None)
+                            lru.possible.pop(key_, None)
+                            lru.fits.pop(key_, None)
+                            lru.unsure.add(key_)
+                        skipped = True
+                        emit_log([i, k, "alloc-failure"])
+                        if lru is not None:
+                            lru.after(i, ["noop"], W, model, bad, bump)
+                        if viol:
+                            break
+                        continue
                 else:
                     be.memoize(ko, mem, val)
                 if held is not None:
@@ -464,6 +510,14 @@ def run_ops(W, ops, check, emit_log, model=None, ledger=None, lru=None, faults=N
                             bump("io_errors_injected")
                         if failed:
                             bump("forget_failed_with_io_error")
+                            if W.knobs.get("cache_kib"):
+                                # whatever the failed attempt left: the backend with the memory cache answers like a cache-less
+                                # backend over the same directories (the cache never knows more than the store)
+                                pb = W.make_backend(plain=True)
+                                a_ = bool(be.is_memoized(W.fns[fn].fn_reference(), W.ref(fn, x).arg_hash))
+                                b_ = bool(pb.is_memoized(W.fns[fn].fn_reference(), W.ref(fn, x).arg_hash))
+                                if a_ != b_:
+                                    bad("cache-and-store-disagree-after-failed-forget", op, {"i": i, "key": [fn, x], "cached_backend": a_, "plain_backend": b_})
                             be.forget_call(W.ref(fn, x))
                             for mk in META_KEYS:      # nothing of the call may answer any more
                                 gotm = be.read_metadata(W.ref(fn, x), mk)
@@ -845,6 +899,7 @@ class LruLaws:
         self.certain = {}    # cache key -> time of last certain use (write / read that (re)filled or marked)
         self.possible = {}   # cache key -> time of last possible use
         self.fits = {}       # cache key -> bool: the value last written/filled fits the budget
+        self.unsure = set()  # cache keys whose residency is open (a cache insertion of theirs failed half-way)
         self.stats = {"evictions_observed": 0, "hits_without_io": 0, "miss_path_taken": 0, "oversize_bypassed": 0}
         self.states = set()
         self._pre = None
@@ -922,6 +977,7 @@ class LruLaws:
         # --- bookkeeping of uses
         if k == "memoize" and not W.read_only:
             key = self.ckey(W, op[1], op[2])
+            self.unsure.discard(key)
             size = W.last_size[(op[1], op[2])]
             if size > self.budget:
                 self.stats["oversize_bypassed"] += 1
@@ -950,6 +1006,10 @@ class LruLaws:
             for fn, x in keys:
                 key = self.ckey(W, fn, x)
                 if (fn, x) not in model.d:
+                    continue
+                if key in self.unsure or (fn, x) in model.unc:
+                    if key in now:
+                        self.possible[key] = t      # whatever the look-up left resident was used just now
                     continue
                 if key in pre:
                     self.possible[key] = t
@@ -991,6 +1051,8 @@ class LruLaws:
             self.stats["evictions_observed"] += len(ev)
         # --- law 3: LRU order
         for a in now:
+            if a in self.unsure:
+                continue
             pa = self.possible.get(a, 0)
             for b, cb in self.certain.items():
                 if b not in now and self.fits.get(b) and cb > pa:
